@@ -54,3 +54,20 @@ Proof. exact min_skips_nulls. Qed.
 Theorem C04_max_fill_is_neutral_in_range : forall lo vals nulls, List.length vals = List.length nulls -> Forall (fun x => lo <= x)%Z vals ->
   fold_right Z.max lo (fill_nulls lo vals nulls) = fold_right Z.max lo (non_null vals nulls).
 Proof. exact max_skips_nulls. Qed.
+
+(* ---- indexing and layout: the null flag travels with its element ------------------------------------------ *)
+(* ndonnx applies the same lowering to every field of a nullable array.  For every basic index (integers, slices,
+   None, Ellipsis), every tensor of (value, flag) pairs of every rank: indexing the values field and the null field
+   separately gives exactly the two fields of the paired tensor indexed once, and both fail together. *)
+From ND Require Import Base.Tensor Ndx.GetItem Ndx.Layout Ndx.NullTravel.
+Theorem C04_null_flag_travels_with_its_element : forall (A : Type) (t : tensor (A * bool)) index d m,
+  ndx_getitem_user (values_of t) index d = res_map values_of (ndx_getitem_user t index (d, m)) /\
+  ndx_getitem_user (nulls_of t) index m = res_map nulls_of (ndx_getitem_user t index (d, m)).
+Proof. exact @null_flag_travels_with_its_element. Qed.
+Print Assumptions C04_null_flag_travels_with_its_element.
+Theorem C04_getitem_commutes_with_every_elementwise_map : forall (A B : Type) (f : A -> B) (t : tensor A) index d,
+  res_map (tmap f) (ndx_getitem_user t index d) = ndx_getitem_user (tmap f t) index (f d).
+Proof. exact @getitem_user_natural. Qed.
+Theorem C04_flip_commutes_with_every_elementwise_map : forall (A B : Type) (f : A -> B) (t : tensor A) axes d,
+  res_map (tmap f) (ndx_flip t axes d) = ndx_flip (tmap f t) axes (f d).
+Proof. exact @flip_natural. Qed.
